@@ -20,7 +20,9 @@ static double dmap(int map, int m, int M) {
 		case 3: return -std::ldexp(1.0, 300 - 40 * m);
 		case 4: return (4.0 * m) * std::numeric_limits<double>::denorm_min();
 		case 5: return 1e308 - (M - m) * 1e294;
-		default: return (m - 0.5 * M) * (1.7e308 / (0.5 * M + 1));   // both signs, the knot range wider than DBL_MAX: no difference of knots may be formed
+		// two clusters at the two ends of the double range: the knot range - and the fully supported range of most knot vectors -
+		// is wider than DBL_MAX, so neither hi - lo nor x - lo may be formed
+		default: return 2 * m < M ? -1.7e308 + m * 1e294 : 1.7e308 - (M - m) * 1e294;
 	}
 }
 static double lattice_to_double(int map, long p, int M) {
